@@ -12,6 +12,7 @@ configuration `c`: expiries, node-type or cluster-type Redis, and EVERY dispatch
 -/
 import GoZero.C06.Proofs4
 import GoZero.C06.Flight
+import GoZero.C06.Refine
 namespace GoZero.C06
 
 /-! ## 1. Coherent reads -/
@@ -228,6 +229,31 @@ theorem notfound_placeholder_ttl_index (c : Cfg) (s : St) (a j : Nat)
   unfold qindex getCache setnx
   simp [failAt, hmiss, hr, upd, Cfg.slot]
 
+/-- **a not-found marker never replaces a row** (NX semantics of `setCacheWithNotFound`).  Primitive level: `SET
+key "*" NX EX ttl` on an occupied slot changes nothing, whatever occupies it. -/
+theorem marker_setnx_keeps_occupied_slot (s : St) (k : Slot) (e : Entry) (he : s.cache k = some e) (t : Nat) (f : Bool) :
+    setnx s k t f = s := setnx_occupied he t f
+
+/-- Operation level (`Take` / `QueryRow`, and the second Take of the index path): an entry that is not the
+marker is never turned into the marker by a Take when it parses for its key (it is served from the cache) or
+when the DEL of the unparsable entry failed — the case in which the load path reaches `SET NX` with the slot
+still occupied (the database says not-found, the junk entry stays; a found row overwrites it with `SET`). -/
+theorem marker_never_replaces_an_entry (c : Cfg) (s : St) (pk j : Nat) (m : List Bool) (dbf : Bool) (k : Slot) (e : Entry)
+    (he : s.cache k = some e) (hrow : e.val ≠ .ph) (hkeep : parses k.2 e.val = true ∨ failAt m 1 = true) :
+    ∀ e', (takeP c s pk j m dbf).1.cache k = some e' → e'.val ≠ .ph :=
+  takeP_marker_never_replaces c s pk j m dbf k e he hrow hkeep
+
+/-- non-vacuity of the NX case: junk under `p1` whose DEL fails, the row is absent: the Take returns not-found,
+issues GET, DEL (failed), SET NX — and the junk is still there; with the DEL succeeding the marker is written. -/
+example :
+    let c : Cfg := { exp := 20000, nf := 3000 }
+    let s := run c St.init [.raw (.p 1) (.junk 3) 5000]
+    (takeP c s 1 500 [false, true] false).1.cache (0, .p 1) = some ⟨.junk 3, 5000, .explicit⟩
+    ∧ (takeP c s 1 500 [false, true] false).2.res = .notfound
+    ∧ (takeP c s 1 500 [false, true] false).2.cmds.map (·.cmd) = [.get, .del, .setnx]
+    ∧ (takeP c s 1 500 [] false).1.cache (0, .p 1) = some ⟨.ph, 3000, .loaded⟩ := by
+  refine ⟨by decide, by decide, by decide, by decide⟩
+
 /-- what a Take writes: only under its own key, a `loaded` entry, the placeholder with the jittered not-found
 expiry or the row with the jittered expiry. -/
 theorem take_writes_ttl (c : Cfg) (s : St) (pk j : Nat) (m : List Bool) (dbf : Bool) (k : Slot) :
@@ -320,6 +346,59 @@ example : ∃ s, Flight.Reachable (fun g => g + 100) s ∧ s.pc 0 = 4 ∧ s.pc 1
     ∧ s.got 0 = some 100 ∧ s.got 1 = some 100 ∧ s.got 2 = some 101 ∧ s.queries = 2 ∧ s.gen = 2 := by
   refine ⟨_, .step 2 (.step 2 (.step 2 (.step 1 (.step 0 (.step 1 (.step 0 (.step 0 .init rfl) rfl) rfl) rfl) rfl) rfl) rfl) rfl,
     rfl, rfl, rfl, rfl, rfl, rfl, rfl, rfl⟩
+
+/-! ### the concurrent clause linked to the store model (round 3, Refine.lean) -/
+
+/-- **refinement of the concurrent readers to the sequential store model.**  `Conc.cstep` is the flight group of
+`Flight.lean` with the oracle replaced by the store: the function the leader of call `g` runs inside `DoEx` is
+`takeP` on the shared store with that call's environment `env g` (jitter, cache faults, database fault).  For
+any number of reader goroutines and every schedule, every reachable state is explained by a SEQUENTIAL history
+of `gen` Takes (`Conc.seqRun`): the store is the store after them, the database was called as often as they
+call it, every reader that has returned holds the result of sequential Take number `joined t` (< `gen`), and at
+most one goroutine is inside the load. -/
+theorem conc_refines_seq (c : Cfg) (pk : Nat) (env : Nat → Conc.In) (s0 : St) (x : Conc.CSt)
+    (h : Conc.CReach c pk env s0 x) :
+    x.store = Conc.seqRun c pk env s0 x.fl.gen
+    ∧ x.dbq = Conc.seqQ c pk env s0 x.fl.gen
+    ∧ (∀ t, x.fl.pc t = 4 → x.fl.joined t < x.fl.gen ∧ x.fl.got t = some (Conc.seqRes c pk env s0 (x.fl.joined t)))
+    ∧ (∀ t u, x.fl.pc t = 2 → x.fl.pc u = 2 → t = u) := by
+  have hs := Conc.sim_reachable h
+  refine ⟨hs.store, hs.dbq, fun t ht => ?_, fun t u ht hu => single_loader_per_key _ _ hs.fl t u ht hu⟩
+  have := readers_receive_the_query_result _ _ hs.fl t ht
+  exact ⟨this.2.1, this.1⟩
+
+/-- **k concurrent readers of an uncached key = one loading Take + cache hits.**  Without faults, whatever the
+schedule and the number of readers and however many flights they form: every reader that has returned received
+what the database holds (row or not-found), the database was queried at most once — exactly once as soon as a
+flight has finished — and the store is the store after a SINGLE sequential `takeP`. -/
+theorem concurrent_readers_one_load (c : Cfg) (pk : Nat) (env : Nat → Conc.In) (s0 : St) (x : Conc.CSt)
+    (h : Conc.CReach c pk env s0 x) (hf : Conc.FaultFree env) (hmiss : s0.cache (c.slot (.p pk)) = none) :
+    (∀ t, x.fl.pc t = 4 → x.fl.got t = some (Spec.expected s0 (.p pk)))
+    ∧ x.dbq ≤ 1
+    ∧ (0 < x.fl.gen → x.dbq = 1 ∧ x.store = (takeP c s0 pk (env 0).j [] false).1) := by
+  obtain ⟨hst, hq, hret, _⟩ := conc_refines_seq c pk env s0 x h
+  have hfirst := Conc.first_take_loads c pk env s0 hf hmiss
+  refine ⟨fun t ht => ?_, ?_, fun hg => ?_⟩
+  · rw [(hret t ht).2, (Conc.later_takes_hit c pk env s0 hf hmiss _).2.1, hfirst.2.1]
+  · cases hgen : x.fl.gen with
+    | zero => rw [hq, hgen]; simp [Conc.seqQ]
+    | succ g => rw [hq, hgen, (Conc.later_takes_hit c pk env s0 hf hmiss g).2.2]; exact Nat.le_refl 1
+  · obtain ⟨g, hgen⟩ : ∃ g, x.fl.gen = g + 1 := ⟨x.fl.gen - 1, by omega⟩
+    refine ⟨by rw [hq, hgen, (Conc.later_takes_hit c pk env s0 hf hmiss g).2.2], ?_⟩
+    rw [hst, hgen, (Conc.later_takes_hit c pk env s0 hf hmiss g).1]
+    simp only [Conc.seqRun, Conc.seqTake, (hf 0).1, (hf 0).2]
+
+/-- non-vacuity: three readers of the uncached, absent row 7 — goroutine 0 leads, 1 joins, both return; a late
+third reader forms a second flight and is served from the cache: one database call, two flights, every reader
+holds not-found, the store holds the marker written once. -/
+example :
+    let c : Cfg := { exp := 20000, nf := 3000 }
+    ∃ x, Conc.CReach c 7 (fun _ => {}) St.init x ∧ x.fl.pc 0 = 4 ∧ x.fl.pc 1 = 4 ∧ x.fl.pc 2 = 4
+      ∧ x.fl.gen = 2 ∧ x.dbq = 1 ∧ x.fl.got 2 = some .notfound
+      ∧ x.store.cache (0, .p 7) = some ⟨.ph, 3000, .loaded⟩ := by
+  refine ⟨_, .step 2 (.step 2 (.step 2 (.step 1 (.step 0 (.step 1 (.step 0 (.step 0 .init rfl) rfl) rfl) rfl) rfl) rfl) rfl) rfl,
+    rfl, rfl, rfl, rfl, rfl, rfl, ?_⟩
+  decide
 
 /-! ## 6. Invalidation across nodes -/
 
